@@ -102,7 +102,7 @@ def vrecv (cfg : Cfg) (v : View) (ev : Ev) : View × Verdict :=
     match ev.echo with
     | .good =>
       match vvalidate cfg v ev.piv with
-      | some v2 => (v2, .acc)
+      | some v2 => ({ v2 with win := 2 ^ 64 - 1 }, .acc)
       | none => (v, .rej401)
     | .bad => (v, .drop)
     | .none => (v, .chal)
@@ -232,20 +232,23 @@ theorem testBit_shl_or_one (w s j : Nat) (hj : j < 64) :
 /-- What the replay state knows about the set `A` of Partial IVs accepted so far: before the first acceptance
 nothing was accepted; afterwards `last` is the highest accepted PIV and bit `k` (k < 64) of the window is set exactly
 when `last - k` was accepted. -/
-structure Good (v : View) (A : List Nat) : Prop where
+structure Good (v : View) (A : List Nat) (F : Nat) : Prop where
   fresh : v.init = true → A = []
   le : v.init = false → ∀ p ∈ A, p ≤ v.last
   bit : v.init = false → ∀ p ∈ A, v.last - p < 64 → v.win.testBit (v.last - p) = true
   top : v.init = false → v.last ∈ A
-  conv : v.init = false → ∀ k, k < 64 → v.win.testBit k = true → k ≤ v.last ∧ v.last - k ∈ A
+  conv : v.init = false → ∀ k, k < 64 → v.win.testBit k = true → (k ≤ v.last ∧ v.last - k ∈ A) ∨ v.last < F + k
   lt : v.init = false → v.last < SEQ_MAX
+  /-- everything below the floor is blocked: its bit is set while it is inside the bitmap -/
+  blocked : v.init = false → ∀ p, p < F → v.last - p < 64 → v.win.testBit (v.last - p) = true
+  floor_le : v.init = false → F ≤ v.last
 
-theorem good_fresh : Good Recip.fresh.view [] :=
+theorem good_fresh (F : Nat) : Good Recip.fresh.view [] F :=
   ⟨fun _ => rfl, fun h => (by cases h), fun h => (by cases h), fun h => (by cases h), fun h => (by cases h),
-    fun h => (by cases h)⟩
+    fun h => (by cases h), fun h => (by cases h), fun h => (by cases h)⟩
 
-theorem vvalidate_good {cfg : Cfg} {v v' : View} {A : List Nat} {p : Nat} (g : Good v A)
-    (h : vvalidate cfg v p = some v') : p ∉ A ∧ Good v' (p :: A) := by
+theorem vvalidate_good {cfg : Cfg} {v v' : View} {A : List Nat} {F p : Nat} (g : Good v A F)
+    (h : vvalidate cfg v p = some v') : p ∉ A ∧ Good v' (p :: A) (if v.init then 0 else F) ∧ (v.init = false → F ≤ p) := by
   unfold vvalidate at h
   by_cases h1 : p ≥ SEQ_MAX
   · rw [if_pos h1] at h; cases h
@@ -255,7 +258,8 @@ theorem vvalidate_good {cfg : Cfg} {v v' : View} {A : List Nat} {p : Nat} (g : G
     cases h
     have hA := g.fresh h2
     subst hA
-    refine ⟨by simp, ⟨fun h => (by cases h), ?_, ?_, ?_, ?_, ?_⟩⟩
+    rw [if_pos h2]
+    refine ⟨by simp, ⟨fun h => (by cases h), ?_, ?_, ?_, ?_, ?_, ?_, ?_⟩, fun h => by rw [h2] at h; cases h⟩
     · intro _ q hq; simp at hq; simp [hq]
     · intro _ q hq _; simp at hq; subst hq; simp [Nat.testBit_one_zero]
     · intro _; simp
@@ -263,15 +267,19 @@ theorem vvalidate_good {cfg : Cfg} {v v' : View} {A : List Nat} {p : Nat} (g : G
       dsimp only at hk ⊢
       rw [testBit_one] at hk
       have : k = 0 := by simpa using hk
-      subst this; simp
+      subst this; exact Or.inl (by simp)
     · intro _; dsimp only; omega
+    · intro _ q hq _; exact absurd hq (Nat.not_lt_zero _)
+    · intro _; exact Nat.zero_le _
   rw [if_neg h2] at h
   have hi : v.init = false := by simpa using h2
+  have hfl := g.floor_le hi
+  rw [if_neg h2]
   by_cases h3 : p > v.last
   · rw [if_pos h3] at h
     cases h
     have hnot : p ∉ A := fun hp => by have := g.le hi p hp; omega
-    refine ⟨hnot, ⟨fun h => (by cases h), ?_, ?_, ?_, ?_, ?_⟩⟩
+    refine ⟨hnot, ⟨fun h => (by cases h), ?_, ?_, ?_, ?_, ?_, ?_, ?_⟩, fun _ => by omega⟩
     · intro _ q hq
       dsimp only
       rcases List.mem_cons.mp hq with rfl | hq
@@ -297,16 +305,27 @@ theorem vvalidate_good {cfg : Cfg} {v v' : View} {A : List Nat} {p : Nat} (g : G
       by_cases h4 : p - v.last > 63
       · rw [if_pos h4, testBit_one] at hb
         have : k = 0 := by simpa using hb
-        subst this; simp
+        subst this; exact Or.inl (by simp)
       · rw [if_neg h4, testBit_shl_or_one _ _ _ hk] at hb
         by_cases hk0 : k = 0
-        · subst hk0; simp
+        · subst hk0; exact Or.inl (by simp)
         · simp only [hk0, decide_false, Bool.false_or, Bool.and_eq_true, decide_eq_true_eq] at hb
-          have := g.conv hi (k - (p - v.last)) (by omega) hb.2
-          refine ⟨by omega, ?_⟩
-          have e : p - k = v.last - (k - (p - v.last)) := by omega
-          rw [e]
-          exact List.mem_cons_of_mem _ this.2
+          rcases g.conv hi (k - (p - v.last)) (by omega) hb.2 with this | this
+          · left
+            refine ⟨by omega, ?_⟩
+            have e : p - k = v.last - (k - (p - v.last)) := by omega
+            rw [e]
+            exact List.mem_cons_of_mem _ this.2
+          · right; omega
+    · intro _; dsimp only; omega
+    · intro _ q hq hlt
+      dsimp only at hlt ⊢
+      have h4 : ¬ p - v.last > 63 := by omega
+      rw [if_neg h4, testBit_shl_or_one _ _ _ hlt]
+      have hb := g.blocked hi q hq (by omega)
+      have e : p - q - (p - v.last) = v.last - q := by omega
+      have hge : p - q ≥ p - v.last := by omega
+      simp [e, hb, hge]
     · intro _; dsimp only; omega
   rw [if_neg h3] at h
   by_cases h4 : p = v.last
@@ -320,7 +339,11 @@ theorem vvalidate_good {cfg : Cfg} {v v' : View} {A : List Nat} {p : Nat} (g : G
   rw [if_neg h6] at h
   cases h
   have hnot : p ∉ A := fun hp => h6 (g.bit hi p hp (by omega))
-  refine ⟨hnot, ⟨fun h => (by cases h), ?_, ?_, ?_, ?_, ?_⟩⟩
+  have hFp : F ≤ p := by
+    rcases Nat.lt_or_ge p F with hlt | hge
+    · exact absurd (g.blocked hi p hlt (by omega)) h6
+    · exact hge
+  refine ⟨hnot, ⟨fun h => (by cases h), ?_, ?_, ?_, ?_, ?_, ?_, ?_⟩, fun _ => hFp⟩
   · intro _ q hq
     dsimp only
     rcases List.mem_cons.mp hq with rfl | hq
@@ -337,16 +360,48 @@ theorem vvalidate_good {cfg : Cfg} {v v' : View} {A : List Nat} {p : Nat} (g : G
     dsimp only at hb ⊢
     rw [Nat.testBit_or, Nat.testBit_two_pow] at hb
     by_cases hw : v.win.testBit k = true
-    · have := g.conv hi k hk hw
-      exact ⟨this.1, List.mem_cons_of_mem _ this.2⟩
+    · rcases g.conv hi k hk hw with this | this
+      · exact Or.inl ⟨this.1, List.mem_cons_of_mem _ this.2⟩
+      · exact Or.inr this
     · have hw' : v.win.testBit k = false := by simpa using hw
       simp [hw'] at hb
       subst hb
+      left
       refine ⟨by omega, ?_⟩
       have e : v.last - (v.last - p) = p := by omega
       rw [e]; simp
   · intro _; exact g.lt hi
+  · intro _ q hq hlt
+    dsimp only at hlt ⊢
+    rw [Nat.testBit_or]
+    simp [g.blocked hi q hq hlt]
+  · intro _; exact hfl
 
+/-- Appendix B.1.2: the window after the request that carried the Echo value — its Partial IV is the floor. -/
+theorem good_floor {p : Nat} (hp : p < SEQ_MAX) : Good ⟨false, p, 2 ^ 64 - 1⟩ [p] p := by
+  refine ⟨fun h => (by cases h), ?_, ?_, ?_, ?_, ?_, ?_, ?_⟩
+  · intro _ q hq; simp at hq; simp [hq]
+  · intro _ q hq hlt
+    dsimp only at hlt ⊢
+    rw [Nat.testBit_two_pow_sub_one]; simpa using hlt
+  · intro _; simp
+  · intro _ k _ _
+    dsimp only
+    by_cases hk : k = 0
+    · subst hk; exact Or.inl (by simp)
+    · right; omega
+  · intro _; exact hp
+  · intro _ q _ hlt
+    dsimp only at hlt ⊢
+    rw [Nat.testBit_two_pow_sub_one]; simpa using hlt
+  · intro _; exact Nat.le_refl _
+
+theorem vvalidate_init {cfg : Cfg} {v v' : View} {p : Nat} (hi : v.init = true) (h : vvalidate cfg v p = some v') :
+    v' = ⟨false, p, 1⟩ ∧ p < SEQ_MAX := by
+  unfold vvalidate at h
+  by_cases h1 : p ≥ SEQ_MAX
+  · rw [if_pos h1] at h; cases h
+  · rw [if_neg h1, if_pos hi] at h; cases h; exact ⟨rfl, by omega⟩
 
 theorem recv_fst_view (cfg : Cfg) (r : Recip) (ev : Ev) : (recv cfg r ev).1.view = (vrecv cfg r.view ev).1 :=
   congrArg Prod.fst (recv_view cfg r ev)
@@ -354,10 +409,16 @@ theorem recv_fst_view (cfg : Cfg) (r : Recip) (ev : Ev) : (recv cfg r ev).1.view
 theorem recv_snd (cfg : Cfg) (r : Recip) (ev : Ev) : (recv cfg r ev).2 = (vrecv cfg r.view ev).2 :=
   congrArg Prod.snd (recv_view cfg r ev)
 
-/-- one step on the view: either the request is accepted, its PIV was not accepted before and the invariant holds
-for the enlarged set, or the view is unchanged -/
+/-- the floor of the window (ghost) after a request with Partial IV `p` has been accepted in view `v`: the request that
+completes the Appendix B.1.2 exchange sets it, without B.1.2 the first request leaves none, later it never moves -/
+def vfloor (cfg : Cfg) (v : View) (F p : Nat) : Nat := if v.init then (if cfg.b12 then p else 0) else F
+
+/-- one step on the view: either the request is accepted (plainly, or as the request that completes the Appendix B.1.2
+exchange: then every lower Partial IV is blocked), or the view is unchanged -/
 theorem vrecv_cases (cfg : Cfg) (v : View) (ev : Ev) :
-    (∃ v', vvalidate cfg v ev.piv = some v' ∧ ev.authentic = true ∧ vrecv cfg v ev = (v', .acc)) ∨
+    (∃ v', vvalidate cfg v ev.piv = some v' ∧ ev.authentic = true ∧
+      ((vrecv cfg v ev = (v', .acc) ∧ (v.init = true → cfg.b12 = false)) ∨
+       (v.init = true ∧ cfg.b12 = true ∧ ev.echo = .good ∧ vrecv cfg v ev = ({ v' with win := 2 ^ 64 - 1 }, .acc)))) ∨
     ((vrecv cfg v ev).1 = v ∧ (vrecv cfg v ev).2 ≠ .acc ∧ (vrecv cfg v ev).2 ≠ .ub) := by
   unfold vrecv
   by_cases hval : (!v.init || !cfg.b12) = true
@@ -366,9 +427,16 @@ theorem vrecv_cases (cfg : Cfg) (v : View) (ev : Ev) :
     | none => right; simp
     | some v' =>
       by_cases ha : ev.authentic = true
-      · left; exact ⟨v', rfl, ha, by simp [ha]⟩
+      · left
+        refine ⟨v', rfl, ha, Or.inl ⟨by simp [ha], fun hi => ?_⟩⟩
+        cases hb : cfg.b12 <;> simp [hi, hb] at hval ⊢
       · right; simp [ha]
   · rw [if_neg hval]
+    have hval' : (!v.init || !cfg.b12) = false := by simpa using hval
+    have hinit : v.init = true := by
+      cases hi : v.init <;> simp [hi] at hval' ⊢
+    have hb : cfg.b12 = true := by
+      cases hb : cfg.b12 <;> simp [hb] at hval' ⊢
     by_cases ha : ev.authentic = true
     · have : (!ev.authentic) = false := by simp [ha]
       rw [this]
@@ -379,22 +447,42 @@ theorem vrecv_cases (cfg : Cfg) (v : View) (ev : Ev) :
       | good =>
         cases hv : vvalidate cfg v ev.piv with
         | none => right; simp
-        | some v' => left; exact ⟨v', rfl, ha, rfl⟩
+        | some v' => left; exact ⟨v', rfl, ha, Or.inr ⟨hinit, hb, rfl, rfl⟩⟩
     · right; simp [ha]
 
-theorem recv_good {cfg : Cfg} {r : Recip} {A : List Nat} (ev : Ev) (g : Good r.view A) :
-    ((recv cfg r ev).2 = .acc ∧ ev.authentic = true ∧ ev.piv ∉ A ∧ Good (recv cfg r ev).1.view (ev.piv :: A)) ∨
+theorem recv_good {cfg : Cfg} {r : Recip} {A : List Nat} {F : Nat} (ev : Ev) (g : Good r.view A F) :
+    ((recv cfg r ev).2 = .acc ∧ ev.authentic = true ∧ ev.piv ∉ A ∧
+        Good (recv cfg r ev).1.view (ev.piv :: A) (vfloor cfg r.view F ev.piv) ∧ (r.init = false → F ≤ ev.piv) ∧
+        (r.init = true → cfg.b12 = true → ev.echo = .good) ∧ (recv cfg r ev).1.view.init = false) ∨
     ((recv cfg r ev).2 ≠ .acc ∧ (recv cfg r ev).2 ≠ .ub ∧ (recv cfg r ev).1.view = r.view) := by
   rw [recv_fst_view, recv_snd]
-  rcases vrecv_cases cfg r.view ev with ⟨v', hv, ha, he⟩ | ⟨h1, h2, h3⟩
+  rcases vrecv_cases cfg r.view ev with ⟨v', hv, ha, ⟨he, hb⟩ | ⟨hi, hb, hecho, he⟩⟩ | ⟨h1, h2, h3⟩
   · left
     rw [he]
     have := vvalidate_good g hv
-    exact ⟨rfl, ha, this.1, this.2⟩
+    refine ⟨rfl, ha, this.1, ?_, this.2.2, fun hi hb' => (by rw [hb hi] at hb'; cases hb'), vvalidate_init_false hv⟩
+    have hfl : vfloor cfg r.view F ev.piv = (if r.view.init then 0 else F) := by
+      unfold vfloor
+      cases hi : r.view.init with
+      | false => rfl
+      | true => simp [hb hi]
+    rw [hfl]; exact this.2.1
+  · left
+    rw [he]
+    obtain ⟨hv', hlt⟩ := vvalidate_init hi hv
+    have hA := g.fresh hi
+    subst hA
+    subst hv'
+    refine ⟨rfl, ha, by simp, ?_, fun h => ?_, fun _ _ => hecho, rfl⟩
+    · have hfl : vfloor cfg r.view F ev.piv = ev.piv := by simp [vfloor, hi, hb]
+      rw [hfl]; exact good_floor hlt
+    · have : r.view.init = false := h
+      rw [hi] at this; cases this
   · right; exact ⟨h2, h3, h1⟩
 
-theorem vvalidate_live {cfg : Cfg} {v : View} {A : List Nat} {p : Nat} (g : Good v A) (hp : p < SEQ_MAX)
-    (hn : p ∉ A) (hw : ∀ q ∈ A, q < p + min cfg.window 64) : ∃ v', vvalidate cfg v p = some v' := by
+theorem vvalidate_live {cfg : Cfg} {v : View} {A : List Nat} {F p : Nat} (g : Good v A F) (hp : p < SEQ_MAX)
+    (hn : p ∉ A) (hw : ∀ q ∈ A, q < p + min cfg.window 64) (hF : v.init = false → F ≤ p) :
+    ∃ v', vvalidate cfg v p = some v' := by
   unfold vvalidate
   have h1 : ¬ p ≥ SEQ_MAX := by omega
   rw [if_neg h1]
@@ -413,10 +501,13 @@ theorem vvalidate_live {cfg : Cfg} {v : View} {A : List Nat} {p : Nat} (g : Good
   rw [if_neg h5]
   have h6 : ¬ v.win.testBit (v.last - p) = true := by
     intro hb
-    have := (g.conv hi (v.last - p) (by omega) hb).2
-    have e : v.last - (v.last - p) = p := by omega
-    rw [e] at this
-    exact hn this
+    have hF' := hF hi
+    rcases g.conv hi (v.last - p) (by omega) hb with this | this
+    · have this := this.2
+      have e : v.last - (v.last - p) = p := by omega
+      rw [e] at this
+      exact hn this
+    · omega
   rw [if_neg h6]; exact ⟨_, rfl⟩
 
 theorem vrecv_acc {cfg : Cfg} {v v' : View} {ev : Ev} (ha : ev.authentic = true)
@@ -595,10 +686,10 @@ theorem vrecvRsp_forged {cfg : Cfg} {v : View} {x : Rsp} (h : x.authentic = fals
 
 /-- One response in a state consistent with the set `A` of recorded Partial IVs: either it is validated and accepted
 (then its PIV was not recorded before and is now), or nothing is recorded and `A` still describes the window. -/
-theorem vrecvRsp_good {cfg : Cfg} {v : View} {A : List Nat} (x : Rsp) (g : Good v A) :
+theorem vrecvRsp_good {cfg : Cfg} {v : View} {A : List Nat} {F : Nat} (x : Rsp) (g : Good v A F) :
     (∃ p v', x.piv = some p ∧ v.init = false ∧ x.authentic = true ∧ vvalidate cfg v p = some v' ∧
-        vrecvRsp cfg v x = (v', .acc) ∧ p ∉ A ∧ Good v' (p :: A)) ∨
-    ((x.piv = none ∨ v.init = true ∨ (vrecvRsp cfg v x).2 ≠ .acc) ∧ Good (vrecvRsp cfg v x).1 A) := by
+        vrecvRsp cfg v x = (v', .acc) ∧ p ∉ A ∧ Good v' (p :: A) F) ∨
+    ((x.piv = none ∨ v.init = true ∨ (vrecvRsp cfg v x).2 ≠ .acc) ∧ Good (vrecvRsp cfg v x).1 A F) := by
   cases hp : x.piv with
   | none =>
     right
@@ -620,7 +711,7 @@ theorem vrecvRsp_good {cfg : Cfg} {v : View} {A : List Nat} (x : Rsp) (g : Good 
         by_cases ha : x.authentic = true
         · simp only [ha, Bool.not_true, Bool.false_eq_true, if_false]
           exact ⟨fun _ => hA, fun h => (by cases h), fun h => (by cases h), fun h => (by cases h),
-            fun h => (by cases h), fun h => (by cases h)⟩
+            fun h => (by cases h), fun h => (by cases h), fun h => (by cases h), fun h => (by cases h)⟩
         · simp [ha, g]
     · have hi' : v.init = false := by simpa using hi
       cases hv : vvalidate cfg v p with
@@ -633,13 +724,14 @@ theorem vrecvRsp_good {cfg : Cfg} {v : View} {A : List Nat} (x : Rsp) (g : Good 
       | some v1 =>
         have hg := vvalidate_good g hv
         have hi1 := vvalidate_init_false hv
-        have hlt := hg.2.lt hi1
-        have hle : p ≤ v1.last := hg.2.le hi1 p List.mem_cons_self
+        have hg2 : Good v1 (p :: A) F := by have := hg.2.1; rwa [if_neg hi] at this
+        have hlt := hg2.lt hi1
+        have hle : p ≤ v1.last := hg2.le hi1 p List.mem_cons_self
         have h1 : ¬ v1.last ≥ SEQ_MAX := by omega
         have h2 : ¬ p > v1.last := by omega
         by_cases ha : x.authentic = true
         · left
-          refine ⟨p, v1, rfl, hi', ha, hv, ?_, hg.1, hg.2⟩
+          refine ⟨p, v1, rfl, hi', ha, hv, ?_, hg.1, hg2⟩
           unfold vrecvRsp
           rw [hp]
           simp only [hi, if_false, hv, h1, ha, Bool.not_true, Bool.false_eq_true, h2]
@@ -699,21 +791,32 @@ theorem accepted_sublist (cfg : Cfg) (ms : List Msg) : ∀ r : Recip, (accepted 
     simp only [accepted, recorded]
     exact List.Sublist.append (acceptedBy_sublist cfg r m) (ih _)
 
+/-- the floor of the window (ghost: the Partial IV of the request that completed the Appendix B.1.2 exchange, below
+which everything is refused) after one message / after a history -/
+def floorStep (cfg : Cfg) (r : Recip) (m : Msg) (F : Nat) : Nat :=
+  match m with
+  | .req e => if (recv cfg r e).2 = .acc then vfloor cfg r.view F e.piv else F
+  | .rsp _ => F
+
+def floorOf (cfg : Cfg) : Recip → List Msg → Nat → Nat
+  | _, [], F => F
+  | r, m :: ms, F => floorOf cfg (step cfg r m).1 ms (floorStep cfg r m F)
+
 /-- One message in a state consistent with `A`: no undefined shift, what it records was not recorded before, and the
 new state is consistent with the enlarged set. -/
-theorem step_good {cfg : Cfg} {r : Recip} {A : List Nat} (m : Msg) (g : Good r.view A) :
-    (∀ p ∈ taken cfg r m, p ∉ A) ∧ Good (step cfg r m).1.view ((taken cfg r m).reverse ++ A) := by
+theorem step_good {cfg : Cfg} {r : Recip} {A : List Nat} {F : Nat} (m : Msg) (g : Good r.view A F) :
+    (∀ p ∈ taken cfg r m, p ∉ A) ∧ Good (step cfg r m).1.view ((taken cfg r m).reverse ++ A) (floorStep cfg r m F) := by
   cases m with
   | req e =>
-    simp only [step, taken]
-    rcases recv_good (cfg := cfg) e g with ⟨hacc, _, hnot, g'⟩ | ⟨hacc, _, hview⟩
+    simp only [step, taken, floorStep]
+    rcases recv_good (cfg := cfg) e g with ⟨hacc, _, hnot, g', _, _, _⟩ | ⟨hacc, _, hview⟩
     · simp only [hacc, if_true, List.mem_singleton, forall_eq, List.reverse_singleton, List.singleton_append]
       exact ⟨hnot, g'⟩
     · simp only [hacc, if_false, List.reverse_nil, List.nil_append]
       rw [hview]
       exact ⟨by simp, g⟩
   | rsp x =>
-    simp only [step]
+    simp only [step, floorStep]
     rw [recvRsp_fst_view]
     rcases vrecvRsp_good (cfg := cfg) x g with ⟨p, v', hp, hi, _, _, he, hnot, g'⟩ | ⟨hno, g'⟩
     · have hi' : r.init = false := hi
@@ -735,15 +838,15 @@ theorem step_good {cfg : Cfg} {r : Recip} {A : List Nat} (m : Msg) (g : Good r.v
       rw [ht]
       exact ⟨by simp, by simpa using g'⟩
 
-theorem recorded_nodup_aux (cfg : Cfg) (ms : List Msg) : ∀ (r : Recip) (A : List Nat), Good r.view A →
+theorem recorded_nodup_aux (cfg : Cfg) (ms : List Msg) : ∀ (r : Recip) (A : List Nat) (F : Nat), Good r.view A F →
     (recorded cfg r ms).Nodup ∧ (∀ p ∈ recorded cfg r ms, p ∉ A) ∧
-      Good (final cfg r ms).view ((recorded cfg r ms).reverse ++ A) := by
+      Good (final cfg r ms).view ((recorded cfg r ms).reverse ++ A) (floorOf cfg r ms F) := by
   induction ms with
-  | nil => intro r A g; simp [recorded, final, g]
+  | nil => intro r A F g; simp [recorded, final, floorOf, g]
   | cons m ms ih =>
-    intro r A g
+    intro r A F g
     obtain ⟨hnot, g'⟩ := step_good (cfg := cfg) m g
-    obtain ⟨nd, dis, gf⟩ := ih (step cfg r m).1 _ g'
+    obtain ⟨nd, dis, gf⟩ := ih (step cfg r m).1 _ _ g'
     have hlen : ∀ p ∈ taken cfg r m, taken cfg r m = [p] := by
       intro p hp
       cases m with
@@ -759,7 +862,7 @@ theorem recorded_nodup_aux (cfg : Cfg) (ms : List Msg) : ∀ (r : Recip) (A : Li
           · simp only [List.mem_singleton] at hp; subst hp; simp [*]
           · cases hp
         · cases hp
-    simp only [recorded, final]
+    simp only [recorded, final, floorOf]
     refine ⟨?_, ?_, ?_⟩
     · rw [List.nodup_append]
       refine ⟨?_, nd, ?_⟩
@@ -950,14 +1053,15 @@ theorem vvalidate_none_init {cfg : Cfg} {v : View} {p : Nat} (hi : v.init = true
 every recorded PIV was accepted in a request or in a response, every accepted request is recorded, `synced` is
 "validation is armed", and before the first acceptance `last_seq` is 0 or the PIV of an accepted response. -/
 structure Rel (cfg : Cfg) (v : View) (A : List Nat) (s : St) : Prop where
-  good : Good v A
+  good : Good v A s.floor
+  fl0 : v.init = true → s.floor = 0
   sub : ∀ p ∈ A, p ∈ s.accepted ∨ p ∈ s.seen
   acc : ∀ p ∈ s.accepted, p ∈ A
   synced : s.synced = (!v.init || !cfg.b12)
   lastInit : v.init = true → v.last = 0 ∨ v.last ∈ s.all
 
 theorem rel_start (cfg : Cfg) : Rel cfg Recip.fresh.view [] (St.start cfg.b12) :=
-  ⟨good_fresh, fun _ h => (by cases h), fun _ h => (by cases h), rfl, fun _ => Or.inl rfl⟩
+  ⟨good_fresh _, fun _ => rfl, fun _ h => (by cases h), fun _ h => (by cases h), rfl, fun _ => Or.inl rfl⟩
 
 theorem mem_all {s : St} {p : Nat} : p ∈ s.all ↔ p ∈ s.accepted ∨ p ∈ s.seen := by
   unfold St.all; exact List.mem_append
@@ -978,7 +1082,7 @@ theorem rel_keep {cfg : Cfg} {v v' : View} {A : List Nat} {s : St} (R : Rel cfg 
 /-- If nothing recorded and nothing seen forbids it, `oscore_validate_sender_seq` succeeds. -/
 theorem rel_live {cfg : Cfg} {v : View} {A : List Nat} {s : St} (R : Rel cfg v A s) {p : Nat}
     (hc : p ∉ s.accepted) (hs : p ∉ s.seen) (hl : ¬ p ≥ ReplaySpec.SEQ_LIMIT)
-    (hw : inWindow cfg.window s.all p = true) : ∃ v', vvalidate cfg v p = some v' := by
+    (hw : inWindow cfg.window s.all p = true) (hF : s.floor ≤ p) : ∃ v', vvalidate cfg v p = some v' := by
   have hlim : ReplaySpec.SEQ_LIMIT = SEQ_MAX := by decide
   have hnA : p ∉ A := fun h => by
     rcases R.sub _ h with h | h
@@ -986,7 +1090,7 @@ theorem rel_live {cfg : Cfg} {v : View} {A : List Nat} {s : St} (R : Rel cfg v A
     · exact hs h
   have hall : ∀ q ∈ A, q < p + min cfg.window 64 := fun q hq =>
     inWindow_all hw q (mem_all.mpr (R.sub q hq))
-  exact vvalidate_live R.good (by omega) hnA hall
+  exact vvalidate_live R.good (by omega) hnA hall (fun _ => hF)
 
 /-- The relation after an accepted, validated message with Partial IV `p`. -/
 theorem rel_acc_req {cfg : Cfg} {v v' : View} {A : List Nat} {s : St} (R : Rel cfg v A s) {p : Nat}
@@ -994,7 +1098,12 @@ theorem rel_acc_req {cfg : Cfg} {v v' : View} {A : List Nat} {s : St} (R : Rel c
     Rel cfg v' (p :: A) { s with accepted := p :: s.accepted, synced := true } := by
   have hg := vvalidate_good R.good hv
   have hi := vvalidate_init_false hv
-  refine ⟨hg.2, ?_, ?_, by simp [hi], fun h => by rw [hi] at h; cases h⟩
+  have hg2 : Good v' (p :: A) s.floor := by
+    have := hg.2.1
+    cases hvi : v.init with
+    | false => simpa [hvi] using this
+    | true => rw [R.fl0 hvi]; simpa [hvi] using this
+  refine ⟨hg2, fun h => (by rw [hi] at h; cases h), ?_, ?_, by simp [hi], fun h => by rw [hi] at h; cases h⟩
   · intro q hq
     rcases List.mem_cons.mp hq with rfl | hq
     · exact Or.inl List.mem_cons_self
@@ -1023,26 +1132,32 @@ theorem vrecv_conforms {cfg : Cfg} {v : View} {A : List Nat} {s : St} (ev : Ev) 
       · simp only [ha, hsy, Bool.not_true, Bool.false_eq_true, if_false]
         by_cases hc : ev.piv ∈ s.accepted
         · simp [hc]
-        · by_cases hl : ev.piv ≥ ReplaySpec.SEQ_LIMIT
-          · simp [hc, hl]
-          · by_cases hs : ev.piv ∈ s.seen
-            · simp [hc, hl, hs]
-            · by_cases hw : inWindow cfg.window s.all ev.piv = true
-              · exfalso
-                obtain ⟨v', hv'⟩ := rel_live R hc hs hl hw
-                rw [hv] at hv'; cases hv'
-              · simp [hc, hl, hs, hw]
+        · by_cases hf : ev.piv < s.floor
+          · simp [hc, hf]
+          · by_cases hl : ev.piv ≥ ReplaySpec.SEQ_LIMIT
+            · simp [hc, hf, hl]
+            · by_cases hs : ev.piv ∈ s.seen
+              · simp [hc, hf, hl, hs]
+              · by_cases hw : inWindow cfg.window s.all ev.piv = true
+                · exfalso
+                  obtain ⟨v', hv'⟩ := rel_live R hc hs hl hw (by omega)
+                  rw [hv] at hv'; cases hv'
+                · simp [hc, hf, hl, hs, hw]
       · simp [ha]
     | some v' =>
       by_cases ha : ev.authentic = true
       · have hg := vvalidate_good R.good hv
-        simp only [ha, Bool.not_true, Bool.false_eq_true, if_false, outOf, next, reqOf]
+        simp only [ha, Bool.not_true, Bool.false_eq_true, if_false, outOf, next, reqOf, hsy, if_true]
         refine ⟨?_, _, rel_acc_req R hv⟩
         simp only [allowedReq, ha, hsy, Bool.not_true, Bool.false_eq_true, if_false]
         have hc : s.accepted.contains ev.piv = false := by
           have : ev.piv ∉ s.accepted := fun h => hg.1 (R.acc _ h)
           simpa using this
-        simp only [hc, Bool.false_eq_true, if_false]
+        have hf : ¬ ev.piv < s.floor := by
+          cases hvi : v.init with
+          | false => have := hg.2.2 hvi; omega
+          | true => have := R.fl0 hvi; omega
+        simp only [hc, Bool.false_eq_true, if_false, hf]
         repeat' split
         all_goals simp
       · have ha' : ev.authentic = false := by simpa using ha
@@ -1068,10 +1183,21 @@ theorem vrecv_conforms {cfg : Cfg} {v : View} {A : List Nat} {s : St} (ev : Ev) 
           have hl : ev.piv ≥ ReplaySpec.SEQ_LIMIT := by omega
           exact ⟨by simp [outOf, allowedReq, reqOf, ha, he, hl, hsy], rel_keep R _ .rej401 rfl (by intro h; cases h)⟩
         | some v' =>
-          refine ⟨?_, _, by simpa [outOf, next, reqOf] using rel_acc_req R hv⟩
-          simp only [outOf, allowedReq, reqOf, ha, he, hsy, Bool.not_true, Bool.false_eq_true, if_false, Bool.not_false,
-            if_true]
-          split <;> simp
+          obtain ⟨hv', hlt⟩ := vvalidate_init hinit hv
+          subst hv'
+          have hA := R.good.fresh hinit
+          subst hA
+          refine ⟨?_, [ev.piv], ?_⟩
+          · simp only [outOf, allowedReq, reqOf, ha, he, hsy, Bool.not_true, Bool.false_eq_true, if_false, Bool.not_false,
+              if_true]
+            split <;> simp
+          · simp only [outOf, next, reqOf, hsy, Bool.false_eq_true, if_false]
+            refine ⟨good_floor hlt, fun h => (by cases h), ?_, ?_, by simp, fun h => (by cases h)⟩
+            · intro q hq; exact Or.inl (by simp at hq; simp [hq])
+            · intro q hq
+              rcases List.mem_cons.mp hq with rfl | hq
+              · exact List.mem_cons_self
+              · exact absurd (R.acc q hq) (by simp)
     · have ha' : ev.authentic = false := by simpa using ha
       simp only [ha', Bool.not_false, if_true]
       exact ⟨by simp [outOf, allowedReq, reqOf, ha'], rel_keep R _ .rej400 rfl (by intro h; cases h)⟩
@@ -1121,7 +1247,7 @@ theorem vrecvRsp_conforms {cfg : Cfg} {v : View} {A : List Nat} {s : St} (x : Rs
           rw [hn]
           have hA := R.good.fresh hi
           refine ⟨⟨fun _ => hA, fun h => (by cases h), fun h => (by cases h), fun h => (by cases h),
-            fun h => (by cases h), fun h => (by cases h)⟩, ?_, ?_, ?_, ?_⟩
+            fun h => (by cases h), fun h => (by cases h), fun h => (by cases h), fun h => (by cases h)⟩, fun _ => R.fl0 hi, ?_, ?_, ?_, ?_⟩
           · intro q hq; rw [hA] at hq; cases hq
           · exact R.acc
           · rw [R.synced, hi]
@@ -1145,13 +1271,13 @@ theorem vrecvRsp_conforms {cfg : Cfg} {v : View} {A : List Nat} {s : St} (x : Rs
           simp only [outOf, allowedRsp, rspOf, ha, hp, Bool.not_true, Bool.false_eq_true, if_false]
           by_cases hc : p ∈ s.all
           · simp [hc]
-          · by_cases hl : p ≥ ReplaySpec.SEQ_LIMIT ∨ maxOf s.all ≥ ReplaySpec.SEQ_LIMIT
+          · by_cases hl : p ≥ ReplaySpec.SEQ_LIMIT ∨ maxOf s.all ≥ ReplaySpec.SEQ_LIMIT ∨ p < s.floor
             · simp [hc, hl]
             · by_cases hw : inWindow cfg.window s.all p = true
               · exfalso
                 have hc' := fun h => hc (mem_all.mpr h)
                 obtain ⟨v', hv'⟩ := rel_live R (fun h => hc' (Or.inl h)) (fun h => hc' (Or.inr h))
-                  (fun h => hl (Or.inl h)) hw
+                  (fun h => hl (Or.inl h)) hw (by omega)
                 rw [hv] at hv'; cases hv'
               · simp [hc, hl, hw]
         | some v1 =>
@@ -1164,7 +1290,7 @@ theorem vrecvRsp_conforms {cfg : Cfg} {v : View} {A : List Nat} {s : St} (x : Rs
               simp [outOf, next, rspOf, hp]
             rw [hn]
             have hi1 := vvalidate_init_false hv
-            refine ⟨g', ?_, ?_, ?_, fun h => by rw [hi1] at h; cases h⟩
+            refine ⟨g', fun h => (by rw [hi1] at h; cases h), ?_, ?_, ?_, fun h => by rw [hi1] at h; cases h⟩
             · intro q hq
               rcases List.mem_cons.mp hq with rfl | hq
               · exact Or.inr List.mem_cons_self
@@ -1180,7 +1306,7 @@ theorem vrecvRsp_conforms {cfg : Cfg} {v : View} {A : List Nat} {s : St} (x : Rs
             · -- validated, authentic and `vvalidate` succeeded: it is accepted
               have hg := vvalidate_good R.good hv
               have hi1 := vvalidate_init_false hv
-              have hlt := hg.2.lt hi1
+              have hlt := hg.2.1.lt hi1
               have h1 : ¬ v1.last ≥ SEQ_MAX := by omega
               apply h
               unfold vrecvRsp
@@ -1328,5 +1454,120 @@ theorem recv_chal_decrypted {cfg : Cfg} {r : Recip} {ev : Ev} (h : (recv cfg r e
     cases ha : ev.authentic with
     | true => rfl
     | false => simp [ha] at h
+
+/-! ### Restarts: lives of a recipient context with Appendix B.1.2 -/
+
+theorem vrecvRsp_init (cfg : Cfg) (v : View) (x : Rsp) : (vrecvRsp cfg v x).1.init = v.init := by
+  unfold vrecvRsp
+  cases hp : x.piv with
+  | none => dsimp only; split <;> rfl
+  | some p =>
+    dsimp only
+    cases hi : v.init with
+    | true =>
+      simp only [if_true]
+      split
+      · exact hi
+      · split
+        · exact hi
+        · rfl
+    | false =>
+      simp only [Bool.false_eq_true, if_false]
+      cases hv : vvalidate cfg v p with
+      | none => exact hi
+      | some v1 =>
+        dsimp only
+        split
+        · exact vvalidate_init_false hv
+        · split
+          · exact hi
+          · rfl
+
+/-- With Appendix B.1.2, in a state consistent with the floor `F`: every request accepted in a history lies at or above
+the floor once the window is initialised; before that, at or above the Partial IV of a request of that history that
+carried the recipient's current Echo value (the one that completed the exchange). -/
+theorem accepted_above_floor (cfg : Cfg) (hb : cfg.b12 = true) (ms : List Msg) : ∀ (r : Recip) (A : List Nat) (F : Nat),
+    Good r.view A F → ∀ p ∈ accepted cfg r ms,
+      (r.init = false → F ≤ p) ∧ (r.init = true → ∃ ev, Msg.req ev ∈ ms ∧ ev.echo = .good ∧ ev.piv ≤ p) := by
+  induction ms with
+  | nil => intro _ _ _ _ p hp; simp [accepted] at hp
+  | cons m ms ih =>
+    intro r A F g p hp
+    simp only [accepted] at hp
+    cases m with
+    | req e =>
+      simp only [acceptedBy, step] at hp
+      rcases recv_good (cfg := cfg) e g with ⟨hacc, _, _, g', hF, hE, hinit⟩ | ⟨hacc, _, hview⟩
+      · simp only [hacc, if_true, List.singleton_append, List.mem_cons] at hp
+        rcases hp with rfl | hp
+        · exact ⟨hF, fun hi => ⟨e, List.mem_cons_self, hE hi hb, Nat.le_refl _⟩⟩
+        · have h1 := (ih _ _ _ g' p hp).1 hinit
+          constructor
+          · intro hi
+            have hv : r.view.init = false := hi
+            simpa [vfloor, hv] using h1
+          · intro hi
+            have hv : r.view.init = true := hi
+            refine ⟨e, List.mem_cons_self, hE hi hb, ?_⟩
+            simpa [vfloor, hv, hb] using h1
+      · simp only [hacc, if_false, List.nil_append] at hp
+        have g' : Good (recv cfg r e).1.view A F := by rw [hview]; exact g
+        have hi' : (recv cfg r e).1.init = r.init := congrArg View.init hview
+        obtain ⟨h1, h2⟩ := ih _ _ _ g' p hp
+        rw [hi'] at h1 h2
+        exact ⟨h1, fun hi => by
+          obtain ⟨ev, hm, he, hle⟩ := h2 hi
+          exact ⟨ev, List.mem_cons_of_mem _ hm, he, hle⟩⟩
+    | rsp x =>
+      simp only [acceptedBy, step, List.nil_append] at hp
+      have g' := (step_good (cfg := cfg) (.rsp x) g).2
+      simp only [step, floorStep] at g'
+      have hi' : (recvRsp cfg r x).1.init = r.init := by
+        have := recvRsp_fst_view cfg r x
+        have h2 : (recvRsp cfg r x).1.view.init = (vrecvRsp cfg r.view x).1.init := by rw [this]
+        rw [vrecvRsp_init] at h2
+        exact h2
+      obtain ⟨h1, h2⟩ := ih _ _ _ g' p hp
+      rw [hi'] at h1 h2
+      exact ⟨h1, fun hi => by
+        obtain ⟨ev, hm, he, hle⟩ := h2 hi
+        exact ⟨ev, List.mem_cons_of_mem _ hm, he, hle⟩⟩
+
+/-- the requests accepted over several lives of a recipient context: every life starts from a fresh context -/
+def acceptedLives (cfg : Cfg) : List (List Msg) → List Nat
+  | [] => []
+  | l :: ls => accepted cfg Recip.fresh l ++ acceptedLives cfg ls
+
+/-- the Echo exchange is fresh: a request that carries the current Echo value of a life was protected by the peer after
+that life began, so (sender sequence numbers increase) its Partial IV is above everything accepted in earlier lives -/
+def EchoFresh (cfg : Cfg) : List Nat → List (List Msg) → Prop
+  | _, [] => True
+  | old, l :: ls => (∀ ev, Msg.req ev ∈ l → ev.echo = .good → ∀ q ∈ old, q < ev.piv) ∧
+      EchoFresh cfg (old ++ accepted cfg Recip.fresh l) ls
+
+theorem acceptedLives_nodup (cfg : Cfg) (hb : cfg.b12 = true) (ls : List (List Msg)) : ∀ old : List Nat,
+    EchoFresh cfg old ls → (acceptedLives cfg ls).Nodup ∧ ∀ p ∈ acceptedLives cfg ls, p ∉ old := by
+  induction ls with
+  | nil => intro _ _; simp [acceptedLives]
+  | cons l ls ih =>
+    intro old hf
+    obtain ⟨hl, hrest⟩ := hf
+    obtain ⟨nd, dis⟩ := ih _ hrest
+    have hnd1 : (accepted cfg Recip.fresh l).Nodup :=
+      (recorded_nodup_aux cfg l Recip.fresh [] 0 (good_fresh 0)).1.sublist (accepted_sublist cfg l _)
+    have habove : ∀ p ∈ accepted cfg Recip.fresh l, p ∉ old := by
+      intro p hp hold
+      obtain ⟨ev, hm, he, hle⟩ := (accepted_above_floor cfg hb l Recip.fresh [] 0 (good_fresh 0) p hp).2 rfl
+      have := hl ev hm he p hold
+      omega
+    simp only [acceptedLives]
+    refine ⟨?_, ?_⟩
+    · rw [List.nodup_append]
+      exact ⟨hnd1, nd, fun a ha b hb' hab => dis b hb' (by rw [← hab]; exact List.mem_append_right _ ha)⟩
+    · intro p hp
+      rcases List.mem_append.mp hp with hp | hp
+      · exact habove p hp
+      · exact fun hold => dis p hp (List.mem_append_left _ hold)
+
 
 end Coap.Replay
